@@ -1,4 +1,5 @@
 #pragma once
+#include "../../common/verif_hooks.h"
 
 #include "../smoother.h"
 
@@ -18,6 +19,7 @@ public:
     void smoothing(Vector<double>& x, const Vector<double>& rhs, Vector<double>& temp) override;
 
 private:
+    GMGPOLAR_VERIF_FRIEND
     void smoothingSequential(Vector<double>& x, const Vector<double>& rhs, Vector<double>& temp);
     void smoothingForLoop(Vector<double>& x, const Vector<double>& rhs,
                           Vector<double>& temp); /* This is the fastest option */
